@@ -325,6 +325,22 @@ func (cc *checkCtx) checkProperty(prop string, seed int, known []KnownFinding, b
 			}
 		}
 	}
+	// module-wide `final` field obligations tagged with this property
+	for _, fc := range p.FinalChecks {
+		if !hasTag(fc.Tags, prop) {
+			continue
+		}
+		name := fmt.Sprintf("type:%s/final:%s", shortPkg(fc.Type[:strings.LastIndex(fc.Type, ".")])+fc.Type[strings.LastIndex(fc.Type, "."):], fc.Field)
+		o := &Oblig{Name: name, Class: "final", Tags: fc.Tags, Pos: fc.Pos, Clause: "final " + fc.Field, Unit: "module", Paths: 1}
+		rec := &obRecord{o: o, u: &Unit{P: p, Name: "module"}}
+		if len(fc.Sites) > 0 {
+			o.Failures = []*Failure{{Result: "syntactic", Goal: strings.Join(fc.Sites, "; ")}}
+			rec.status = "violated"
+			rec.solver = "ssa-scan"
+			rec.detail = strings.Join(fc.Sites, "; ")
+		}
+		recs = append(recs, rec)
+	}
 	// 4. decide
 	outDir := filepath.Join(cc.verif, "out", prop)
 	os.RemoveAll(outDir)
@@ -334,8 +350,14 @@ func (cc *checkCtx) checkProperty(prop string, seed int, known []KnownFinding, b
 	for _, rec := range recs {
 		if len(rec.o.Failures) == 0 {
 			rec.status = "discharged"
-			rec.solver = "z3-new"
+			rec.solver = interactiveSolverName()
+			if rec.o.Class == "final" {
+				rec.solver = "ssa-scan"
+			}
 			continue
+		}
+		if rec.o.Class == "final" {
+			continue // decided by the scan
 		}
 		wg.Add(1)
 		rec := rec
@@ -521,6 +543,9 @@ func (cc *checkCtx) writeReplay(prop string, rec *obRecord, outDir string) strin
 		fj = append(fj, failureJSON{Result: f.Race.Result, Solver: f.Race.Solver, All: f.Race.All, Query: f.File, Output: out, Trace: f.Trace})
 	}
 	doc["failed_paths"] = fj
+	if rec.o.Class == "final" {
+		doc["offending_sites"] = rec.detail
+	}
 	rp := cc.tryReplay(prop, rec)
 	doc["replay"] = rp
 	if rp != nil && rp["reproduced"] == true {
